@@ -126,7 +126,7 @@ class CoapAccessory:
             status, rbody = self.process(opcode, iid, body)
             sc = self.script.get((opcode, iid), {})
             status = sc.get("status", status)
-            if status != 0:
+            if status != 0 or sc.get("empty"):
                 rbody = b""
             out += struct.pack("<BBBH", sc.get("control", 0x02), (tid + sc.get("tid_delta", 0)) & 0xFF, status, len(rbody)) + rbody
         ct = C.seal(self.session["a2c"], nonce(self.session["a2c_ctr"]), out)
